@@ -259,6 +259,19 @@ def run(ctx):
                 continue
             ctx.nontriv((name, mode))
             rels.append(relations.relate("SameAll", base, text, rb, etext, textcmp=True, meta={"input": name, "mode": mode, "pdb": etext}))
+    # a malformed serial field in a structure file: the run is rejected with ValueError, the atom is not silently dropped
+    from .. import corpus as _C
+    frag_ = _C.fragment("1HPX", "A", 20, 8).splitlines()
+    k_ = next(i for i, ln in enumerate(frag_) if _C.is_atom(ln) and ln[12:16].strip() == "CG")
+    for bad_ in ("aB123", "*****", "1 234", "12-34", "    -", "A_000", "12.5 "):
+        t_ = "\n".join(frag_[:k_] + [frag_[k_][:6] + bad_ + frag_[k_][11:]] + frag_[k_ + 1:]) + "\n"
+        rm_ = runner.run(t_, ["-q"], write=False)
+        ctx.count()
+        if not isinstance(rm_.exc, ValueError):
+            ctx.violation(f"serial:malformed-in-file:{'accepted' if rm_.exc is None else type(rm_.exc).__name__}",
+                          f"a structure whose serial field reads {bad_!r}: "
+                          f"{'the run completes' if rm_.exc is None else repr(rm_.exc)} (ValueError expected)", {"field": bad_, "pdb": t_})
+            break
     rv = relations.validate(ctx, rels, ["SameConfs", "SameAll", "TextSame"], "serial columns rewritten with hybrid-36 fields")
     for inv, lst in sorted(rv.items()):
         for rel in lst:
